@@ -79,9 +79,12 @@ Spec == Init /\ [][Next]_<<c, s>>
 
 (* ---- invariants ---- *)
 Verdict          == RefOK(c, s)                                        \* the property, no carve-outs
-VerdictKF        == RefOK(c, s) \/ KF_MetaAbsent(c) \/ KF_JsonObject(c) \* as-is code, open findings named
-VerdictRepaired  == RefOK(c, s) \/ KF_PointerAndTargetLost(c)          \* with both repairs modelled
-NoNeedlessRaise  == HarmlessIsFull(c, s) \/ KF_MetaAbsent(c) \/ KF_JsonObject(c)
+VerdictKF        == RefOK(c, s) \/ KF_MetaAbsent(c)                    \* code as it is: ONE open finding named (S12)
+VerdictRepaired  == RefOK(c, s) \/ KF_PointerAndTargetLost(c)          \* with the S12 repair modelled as well
+NoNeedlessRaise  == HarmlessIsFull(c, s) \/ KF_MetaAbsent(c)
+\* anti-vacuity companions: each must FAIL
+\*   Verdict            with the as-is flags (the open S12 finding is really in the model)
+\*   VerdictKF          with JsonObjectIsEmpty = TRUE (the pre-122cfe9 JSON fallback is really caught)
 Sane             == StepSane(c, s)
 
 (* ---- export ---- *)
@@ -91,7 +94,7 @@ Out(x) ==
   [rec |-> "case", dmg |-> DmgOut(x), k |-> x.k, api |-> x.api, vopt |-> x.vopt, filt |-> x.filt, fresh |-> x.fresh,
    ref |-> Ref(x, e), kind |-> OutcomeKind(x, e), why |-> e.why, ny |-> e.ny, ans |-> e.ans,
    refok |-> RefOK(x, e),
-   kf |-> IF KF_MetaAbsent(x) THEN "meta_absent" ELSE IF KF_JsonObject(x) THEN "json_object" ELSE "",
+   kf |-> IF KF_MetaAbsent(x) THEN "meta_absent" ELSE "",
    fired |-> {f \in Damaged(x) : x.dmg[f] = "transient" /\ e.acc[f] >= x.k},
    culprits |-> Culprits(x, e),
    touched |-> {f \in AllFiles : e.acc[f] > 0}]
